@@ -301,7 +301,10 @@ def build(cfg, keep_going=False):
     intrs = []
     for i, ic in enumerate(cfg["intrs"]):
         it = wishbone.Interface(addr_width=ic.get("aw", cfg["aw"]), data_width=ic.get("dw", cfg["dw"]),
-                                granularity=ic["g"], features=feats(ic["feat"]), path=(f"i{i}",))
+                                granularity=ic["g"], features=feats(ic["feat"]),
+                                # every third arbiter: all initiators come from instances of one core and carry the same
+                                # path, hence identically named signals (initiators are told apart by identity)
+                                path=("bus",) if (len(cfg["intrs"]) + cfg["aw"]) % 3 == 1 else (f"i{i}",))
         try:
             arb.add(it)
         except ValueError:
